@@ -58,7 +58,11 @@ def gen_action(owner, nh, maxslot, style):
     else:
         w = [0.25, 0.25, 0.15, 0.35]
     k = rng.choices(["b", "u", "us", "e"], w)[0]
+    if rng.random() < 0.02:
+        k = "d"                      # drop the handlers' reference to the owner (the interpreter does it once)
     stats["act_" + k] += 1
+    if k == "d":
+        return "d"
     if k == "b":
         return "b:%d:%d:%d" % (pick_event(owner, True), pick_flags(), rng.randrange(nh))
     if k == "u":
@@ -235,7 +239,7 @@ else:
     tail_histories, head_histories, body_histories = [], [], []
     for i in range(n_hist):
         r = rng.random()
-        if r < 0.004:
+        if r < 0.04:
             tail_histories.append(destroy_scenario())   # kept together at the end: on a tree without the emitter
             continue                                    # references they abort their batch of 64 histories
         elif r < 0.15:
